@@ -48,7 +48,7 @@ func (t Translator) FromArrai(v rel.Value) (interface{}, error) {
 			case rel.TrueSet:
 				return true, nil
 			default:
-				return b.(rel.GenericSet).IsTrue(), nil
+				return nil, fmt.Errorf("FromArrai: value in (b: <value>) must be true or false, not %v", b)
 			}
 		}
 		return nil, fmt.Errorf("cannot convert tuple %s to an object", v)
